@@ -264,7 +264,9 @@ class World:
             _, c, h, uid, var = op
             st, hd, _ = self.req("PUT", self.cpath(c) + HREFS[h], data=event_text(uid, var),
                                  CONTENT_TYPE="text/calendar")
-            return st in (201, 204), ("etag", hd.get("ETag")) if st in (201, 204) else ("status", st)
+            if st in (201, 204):
+                return True, ("cid", self.cid(hd.get("ETag")))
+            return False, ("status", st)
         if k == "del":
             _, c, h = op
             st, _, _ = self.req("DELETE", self.cpath(c) + HREFS[h])
@@ -278,7 +280,10 @@ class World:
         if k == "replace":
             _, c, items = op
             st, _, _ = self.req("PUT", self.cpath(c), data=calendar_text(items), CONTENT_TYPE="text/calendar")
-            return st in (201, 204), ("status", st)
+            if st in (201, 204):
+                v = self.view(c) or {}
+                return True, ("items", sorted((HREFS.index(h), self.cid(e)) for h, e in v.items()))
+            return False, ("status", st)
         if k == "delcoll":
             st, _, _ = self.req("DELETE", self.cpath(op[1]))
             return st == 200, ("status", st)
@@ -558,3 +563,97 @@ def run_history(cfg, ops, monitor=True, dumps=True):
             trace.append((op, accepted, result, d))
         ntok = len(w.tokens)
     return dict(trace=trace, errors=errors, ntok=ntok)
+
+
+# ---------------------------------------------------------------------------------- encoding for the Coq model
+def ser_result(op, result):
+    k = op[0]
+    if k in ("sync", "ptok"):
+        if result[0] == "nocoll":
+            return [1]
+        if result[0] == "refused":
+            return [2]
+        if result[0] == "delta":
+            out = [3, result[1], len(result[2])]
+            for h, e in result[2]:
+                out += [h, -1 if e is None else (e if isinstance(e, int) else -99)]
+            return out
+        if result[0] == "token":
+            return [4, result[1]]
+        return [99]
+    return [0]
+
+
+def ser_dump(dump):
+    out = []
+    for exists, items, hist, toks in dump:
+        out += [1 if exists else 0, len(items)]
+        for h, c in items:
+            out += [h, c]
+        out.append(len(hist))
+        for h, ce, he, mt in hist:
+            out += [h, ce, he, mt - T0]
+        out.append(len(toks))
+        for t, mt, snap in toks:
+            out += [t, mt - T0, len(snap)]
+            for h, he in snap:
+                out += [h, he]
+    return out
+
+
+def iop_text(op, result):
+    """Gallina text of the model operation for an ACCEPTED harness operation."""
+    k = op[0]
+    N = lambda n: "%d%%N" % n
+    if k == "put":
+        return "IPut %s %s %s" % (N(op[1]), N(op[2]), N(result[1]))
+    if k == "del":
+        return "IDel %s %s" % (N(op[1]), N(op[2]))
+    if k == "move":
+        return "IMove %s %s %s %s" % (N(op[1]), N(op[2]), N(op[3]), N(op[4]))
+    if k == "replace":
+        return "IReplace %s [%s]" % (N(op[1]), ";".join("(%s,%s)" % (N(h), N(c)) for h, c in result[1]))
+    if k == "mkcoll":
+        return "IReplace %s []" % N(op[1])
+    if k == "delcoll":
+        return "IDelColl %s" % N(op[1])
+    if k == "dropcache":
+        return "IDropCache %s %s" % (N(op[1]), "true" if op[2] else "false")
+    if k == "tick":
+        return "ITick %s" % N(op[1])
+    if k == "ptok":
+        return "IPTok %s" % N(op[1])
+    if k == "sync":
+        tok = op[2]
+        if tok is None:
+            a = "TNone"
+        elif isinstance(tok, int):
+            a = "(TIx %s)" % N(tok)
+        elif tok[0] == "ws":
+            a = "(TIx %s)" % N(tok[1])
+        elif tok[0] == "mal":
+            a = "TNone" if tok[1].strip() == "" else "TMal"
+        else:
+            raise ValueError(tok)
+        return "ISync %s %s" % (N(op[1]), a)
+    raise ValueError(op)
+
+
+def cfg_text(cfg, fixed=True):
+    return "(mkConfig %s %s (%d)%%Z %s)" % ("true" if cfg["sub_hist"] else "false", "true" if cfg["sub_tok"] else "false",
+                                          cfg["max_age"], "false" if fixed else "true")
+
+
+def model_case(cfg, trace, fixed=True):
+    """(input text, expected observations) for ctx.diff_cases: only operations the server accepted reach the model."""
+    iops, obs = [], []
+    for op, accepted, result, dump in trace:
+        if not accepted:
+            continue
+        iops.append(iop_text(op, result))
+        obs.append(ser_result(op, result) + ser_dump(dump))
+    return "(%s, [%s])" % (cfg_text(cfg, fixed), "; ".join(iops)), obs
+
+
+def enc_obs(obs):
+    return "[" + ";".join("[" + ";".join("(%d)" % z for z in o) + "]" for o in obs) + "]%Z"
